@@ -655,11 +655,11 @@ def finish (st : HashStore) : List Hash × Nat × Nat × Bool → Except Err (Li
     else .ok hs.reverse
 
 theorem subproofGen_eq (st : HashStore) (m n : Nat) (b : Bool) :
-    subproofGen H st m n b = match consLoop H st (n + 1) m n 0 b with
+    subproofGen H (getHash1 st) m n b = match consLoop H (getHash1 st) (n + 1) m n 0 b with
       | .error e => .error e
       | .ok x => finish st x := by
   unfold subproofGen
-  cases consLoop H st (n + 1) m n 0 b with
+  cases consLoop H (getHash1 st) (n + 1) m n 0 b with
   | error e => rfl
   | ok x => obtain ⟨hs, n', off, b'⟩ := x; rfl
 
@@ -689,7 +689,7 @@ theorem getSubTreePos_pow2 (j : Nat) : getSubTreePos (2 ^ j) = [2 * 2 ^ j - 1] :
 theorem consLoop_ok (st : HashStore) (fuel : Nat) : ∀ (S : List Hash) (m : Nat) (pre suf : List Hash) (b : Bool),
     st.hashes = pre ++ postorder H S ++ suf → 1 ≤ m → m ≤ S.length → S.length < fuel →
     (b = false → m < S.length ∨ IsPow2 S.length) →
-    ∃ x, consLoop H st fuel m S.length pre.length b = .ok x ∧ finish st x = .ok (subproof H m S b) := by
+    ∃ x, consLoop H (getHash1 st) fuel m S.length pre.length b = .ok x ∧ finish st x = .ok (subproof H m S b) := by
   induction fuel with
   | zero => intro S m pre suf b _ _ _ hf; omega
   | succ fuel ih =>
@@ -767,10 +767,175 @@ theorem consistencyProof_eq_proof (L : List Hash) (s : State) (st : HashStore) (
     hm1 (by omega) (by omega) (by simp)
   rw [hlen] at hx
   simp only [List.length_nil] at hx
-  unfold consistencyProof
+  unfold consistencyProof consistencyProofR
   have h' : ¬ (m > n ∨ s.tree.size < n) := by omega
-  simp only [hst, h', ↓reduceIte]
+  simp only [hst, Option.map_some, h', ↓reduceIte]
   rw [subproofGen_eq, hx]
   simp only [hfx, proof]
+
+
+/-! ### uniqueness of accepted consistency proofs -/
+
+theorem consTail_unique (hlen : HashLen H) (last : Nat) : ∀ (c c' : Hash) (p p' : List Hash) (r : Hash),
+    c.length = 32 → c'.length = 32 → (∀ y ∈ p, y.length = 32) → (∀ y ∈ p', y.length = 32) →
+    consTail H last c p = .ok (r, []) → consTail H last c' p' = .ok (r, []) → (c = c' ∧ p = p') ∨ Collision H := by
+  induction last using Nat.strongRecOn with
+  | _ last ih =>
+    intro c c' p p' r hc hc' hp hp' h1 h2
+    by_cases h0 : last = 0
+    · subst h0
+      rw [consTail_zero] at h1 h2
+      simp only [Except.ok.injEq, Prod.mk.injEq] at h1 h2
+      left; exact ⟨by rw [h1.1, h2.1], by rw [h1.2, h2.2]⟩
+    · rw [consTail_pos H last c p h0] at h1
+      rw [consTail_pos H last c' p' h0] at h2
+      match p, p', h1, h2 with
+      | s :: rest, s' :: rest', h1, h2 =>
+        simp only at h1 h2
+        have hs : s.length = 32 := hp s (by simp)
+        have hs' : s'.length = 32 := hp' s' (by simp)
+        rcases ih (last / 2) (by omega) _ _ _ _ r (hlen _) (hlen _) (fun y hy => hp y (by simp [hy]))
+            (fun y hy => hp' y (by simp [hy])) h1 h2 with ⟨e1, e2⟩ | hcol
+        · rcases hashChildren_inj H (by rw [hc, hc']) e1 with ⟨a, b⟩ | hcol
+          · left; exact ⟨a, by rw [b, e2]⟩
+          · exact Or.inr hcol
+        · exact Or.inr hcol
+
+/-- The new-root computation of the consistency verifier is injective in (start node, proof). -/
+theorem consRun_unique (hlen : HashLen H) (node : Nat) :
+    ∀ (last : Nat) (c o c' o' : Hash) (p p' : List Hash) (a b a' b' : Hash) (l l' : Nat) (p1 p1' : List Hash) (r : Hash),
+    c.length = 32 → c'.length = 32 → (∀ y ∈ p, y.length = 32) → (∀ y ∈ p', y.length = 32) →
+    consWalk H node last c o p = .ok (a, b, l, p1) → consTail H l a p1 = .ok (r, []) →
+    consWalk H node last c' o' p' = .ok (a', b', l', p1') → consTail H l' a' p1' = .ok (r, []) →
+    (c = c' ∧ p = p') ∨ Collision H := by
+  induction node using Nat.strongRecOn with
+  | _ node ih =>
+    intro last c o c' o' p p' a b a' b' l l' p1 p1' r hc hc' hp hp' hw ht hw' ht'
+    by_cases h0 : node = 0
+    · subst h0
+      rw [consWalk_zero] at hw hw'
+      simp only [Except.ok.injEq, Prod.mk.injEq] at hw hw'
+      obtain ⟨rfl, _, rfl, rfl⟩ := hw
+      obtain ⟨rfl, _, rfl, rfl⟩ := hw'
+      exact consTail_unique H hlen last c c' p p' r hc hc' hp hp' ht ht'
+    · rw [consWalk_pos H node last c o p h0] at hw
+      rw [consWalk_pos H node last c' o' p' h0] at hw'
+      by_cases hodd : node % 2 = 1
+      · simp only [hodd, ↓reduceIte] at hw hw'
+        match p, p', hw, hw' with
+        | s :: rest, s' :: rest', hw, hw' =>
+          simp only at hw hw'
+          have hs : s.length = 32 := hp s (by simp)
+          have hs' : s'.length = 32 := hp' s' (by simp)
+          rcases ih (node / 2) (by omega) (last / 2) _ _ _ _ rest rest' a b a' b' l l' p1 p1' r (hlen _) (hlen _)
+              (fun y hy => hp y (by simp [hy])) (fun y hy => hp' y (by simp [hy])) hw ht hw' ht' with ⟨e1, e2⟩ | hcol
+          · rcases hashChildren_inj H (by rw [hs, hs']) e1 with ⟨x, y⟩ | hcol
+            · left; exact ⟨y, by rw [x, e2]⟩
+            · exact Or.inr hcol
+          · exact Or.inr hcol
+      · simp only [hodd, ↓reduceIte] at hw hw'
+        by_cases hlt : node < last
+        · simp only [hlt, ↓reduceIte] at hw hw'
+          match p, p', hw, hw' with
+          | s :: rest, s' :: rest', hw, hw' =>
+            simp only at hw hw'
+            rcases ih (node / 2) (by omega) (last / 2) _ _ _ _ rest rest' a b a' b' l l' p1 p1' r (hlen _) (hlen _)
+                (fun y hy => hp y (by simp [hy])) (fun y hy => hp' y (by simp [hy])) hw ht hw' ht' with ⟨e1, e2⟩ | hcol
+            · rcases hashChildren_inj H (by rw [hc, hc']) e1 with ⟨x, y⟩ | hcol
+              · left; exact ⟨x, by rw [y, e2]⟩
+              · exact Or.inr hcol
+            · exact Or.inr hcol
+        · simp only [hlt, ↓reduceIte] at hw hw'
+          exact ih (node / 2) (by omega) (last / 2) c o c' o' p p' a b a' b' l l' p1 p1' r hc hc' hp hp' hw ht hw' ht'
+
+/-- What an accepting non-trivial run of `VerifyConsistency` means for the walk and the tail. -/
+theorem verifyConsistency_run (m n : Nat) (r1 r2 : Hash) (proof : List Hash) (hne : r1 ≠ r2) (hm : m ≠ 0)
+    (hacc : verifyConsistency H m n r1 r2 proof = .ok ()) :
+    ∃ p0 rest0 a b l p1, proof = p0 :: rest0 ∧
+      consWalk H (stripRight (m - 1) (n - 1)).1 (stripRight (m - 1) (n - 1)).2
+        (if (stripRight (m - 1) (n - 1)).1 ≠ 0 then p0 else r1) (if (stripRight (m - 1) (n - 1)).1 ≠ 0 then p0 else r1)
+        (if (stripRight (m - 1) (n - 1)).1 ≠ 0 then rest0 else proof) = .ok (a, b, l, p1) ∧
+      consTail H l a p1 = .ok (r2, []) := by
+  unfold verifyConsistency at hacc
+  split at hacc
+  · simp at hacc
+  · simp only [hne, ↓reduceIte, hm] at hacc
+    match proof, hacc with
+    | p0 :: rest0, hacc =>
+      simp only at hacc
+      refine ⟨p0, rest0, ?_⟩
+      generalize stripRight (m - 1) (n - 1) = nl at hacc ⊢
+      obtain ⟨node, last⟩ := nl
+      simp only at hacc ⊢
+      by_cases hn0 : node = 0
+      · subst hn0
+        simp only [ne_eq, not_true_eq_false, ↓reduceIte] at hacc ⊢
+        cases hw : consWalk H 0 last r1 r1 (p0 :: rest0) with
+        | error e => simp [hw] at hacc
+        | ok x =>
+          obtain ⟨a, b, l, p1⟩ := x
+          simp only [hw] at hacc
+          cases ht : consTail H l a p1 with
+          | error e => simp [ht] at hacc
+          | ok y =>
+            obtain ⟨a', p2⟩ := y
+            simp only [ht] at hacc
+            split at hacc
+            · simp at hacc
+            · rename_i h1
+              split at hacc
+              · simp at hacc
+              · split at hacc
+                · simp at hacc
+                · rename_i h3
+                  have e1 : a' = r2 := by simpa using h1
+                  have e3 : p2 = [] := by simpa using h3
+                  exact ⟨a, b, l, p1, by simp, by simp, by rw [ht, e1, e3]⟩
+      · simp only [ne_eq, hn0, not_false_eq_true, ↓reduceIte] at hacc ⊢
+        cases hw : consWalk H node last p0 p0 rest0 with
+        | error e => simp [hw] at hacc
+        | ok x =>
+          obtain ⟨a, b, l, p1⟩ := x
+          simp only [hw] at hacc
+          cases ht : consTail H l a p1 with
+          | error e => simp [ht] at hacc
+          | ok y =>
+            obtain ⟨a', p2⟩ := y
+            simp only [ht] at hacc
+            split at hacc
+            · simp at hacc
+            · rename_i h1
+              split at hacc
+              · simp at hacc
+              · split at hacc
+                · simp at hacc
+                · rename_i h3
+                  have e1 : a' = r2 := by simpa using h1
+                  have e3 : p2 = [] := by simpa using h3
+                  exact ⟨a, b, l, p1, by simp, by simp, by rw [ht, e1, e3]⟩
+
+/-- For fixed sizes and two different roots at most one consistency proof is accepted (or a collision). -/
+theorem verifyConsistency_unique (hlen : HashLen H) (m n : Nat) (r1 r2 : Hash) (p p' : List Hash)
+    (hne : r1 ≠ r2) (hm : m ≠ 0) (hr1 : r1.length = 32)
+    (hp : ∀ y ∈ p, y.length = 32) (hp' : ∀ y ∈ p', y.length = 32)
+    (h1 : verifyConsistency H m n r1 r2 p = .ok ()) (h2 : verifyConsistency H m n r1 r2 p' = .ok ()) :
+    p = p' ∨ Collision H := by
+  obtain ⟨p0, rest0, a, b, l, p1, e, hw, ht⟩ := verifyConsistency_run H m n r1 r2 p hne hm h1
+  obtain ⟨p0', rest0', a', b', l', p1', e', hw', ht'⟩ := verifyConsistency_run H m n r1 r2 p' hne hm h2
+  subst e; subst e'
+  generalize stripRight (m - 1) (n - 1) = nl at hw ht hw' ht'
+  obtain ⟨node, last⟩ := nl
+  simp only at hw hw'
+  by_cases hn0 : node = 0
+  · subst hn0
+    simp only [ne_eq, not_true_eq_false, ↓reduceIte] at hw hw'
+    rcases consRun_unique H hlen 0 last r1 r1 r1 r1 _ _ a b a' b' l l' p1 p1' r2 hr1 hr1 hp hp' hw ht hw' ht' with ⟨_, e⟩ | hc
+    · exact Or.inl e
+    · exact Or.inr hc
+  · simp only [ne_eq, hn0, not_false_eq_true, ↓reduceIte] at hw hw'
+    rcases consRun_unique H hlen node last p0 p0 p0' p0' rest0 rest0' a b a' b' l l' p1 p1' r2 (hp p0 (by simp)) (hp' p0' (by simp))
+        (fun y hy => hp y (by simp [hy])) (fun y hy => hp' y (by simp [hy])) hw ht hw' ht' with ⟨e1, e2⟩ | hc
+    · left; rw [e1, e2]
+    · exact Or.inr hc
 
 end Poly.Proofs.MerkleCons
